@@ -50,6 +50,9 @@ func namesOfMulti(m *multiCase) []schemaNames {
 	for _, f := range m.files {
 		sn := schemaNames{file: f.RelPath, root: rootNameOf(f.RelPath, m.rootOf[f.RelPath]), output: m.outOf[f.RelPath], pkg: m.pkgOf[f.RelPath], hasRoot: f.Root != nil}
 		for _, d := range f.Defs {
+			if d.Name == "Base" {
+				continue // same name in every file by construction (shared reference text scenario)
+			}
 			sn.defs = append(sn.defs, d.Name)
 		}
 		out = append(out, sn)
@@ -336,7 +339,11 @@ func TestC20(t *testing.T) {
 	}
 	sameDir := c.Avoid("paths.argument_also_ref_target")
 	res := c.Rapid("placement", c.N(400, 8000), 0, func(rt *rapid.T) {
-		m := genMulti(rt, c, multiOpts{maxFiles: 4, uniqueDefs: true, blockPkgs: true, sameDir: sameDir, yamlFiles: false})
+		shared := rapid.IntRange(0, 2).Draw(rt, "sharedreftext") == 0
+		m := genMulti(rt, c, multiOpts{maxFiles: 4, uniqueDefs: true, blockPkgs: true, sameDir: sameDir, yamlFiles: false, sharedRefText: shared})
+		if shared {
+			c.Count("shape.shared_ref_text")
+		}
 		if sameDir {
 			c.ExcludedMap()["paths.argument_also_ref_target"]++
 		}
@@ -354,8 +361,10 @@ func TestC20(t *testing.T) {
 			}
 		}
 		// plus an unrelated file
-		extra := gen.FileText{RelPath: "unrelated.json", Text: `{"$id":"https://example.com/unrelated","type":"object","properties":{"u":{"type":"integer","minimum":3},"e":{"type":"string","enum":["x","y"]}},"$defs":{"UnrelatedDef":{"type":"object","properties":{"q":{"type":"string"}}}}}`}
+		extra := gen.FileText{RelPath: "unrelated.json", Text: `{"$id":"https://example.com/unrelated","type":"object","properties":{"u":{"type":"integer","minimum":3},"e":{"type":"string","enum":["x","y"]}},"$defs":{"UnrelatedDef":{"type":"object","properties":{"q":{"type":"string"}}},"Base":{"type":"object","properties":{"unrelatedOnly":{"type":"string"}},"required":["unrelatedOnly"]}},"allOf":[{"$ref":"#/$defs/Base"},{"type":"object","properties":{"w":{"type":"boolean"}}}]}`}
 		cp := *base
+		// the unrelated schema lives in a package and file of its own (no name can collide with it)
+		cp.Config.Mappings = append(append([]gen.Mapping{}, base.Config.Mappings...), gen.Mapping{ID: "https://example.com/unrelated", Package: "example.com/unrelatedpkg", Output: "out/unrelatedpkg/unrelated.go"})
 		cp.Files = append(append([]gen.FileText{}, base.Files...), extra)
 		pos := rapid.IntRange(0, len(base.Inputs)).Draw(rt, "extrapos")
 		cp.Inputs = append(append(append([]string{}, base.Inputs[:pos]...), "unrelated.json"), base.Inputs[pos:]...)
